@@ -18,7 +18,8 @@ func init() {
 			"(R11.2) operand coverage: in each handled case every exported field of the instruction type is read, or is in the table of fields without run-time meaning; " +
 			"(R11.3) function coverage: the converter consumes every part of an ssa.Function that carries behaviour — FreeVars, AnonFuncs, Blocks, Signature (parameters and results) and Recover — or rejects functions that have it; " +
 			"(R11.4) directive parameters are bounded by their maxima and unknown hardening names are rejected; " +
-			"(R11.5) the comparison guarding a trash block is drawn only from operators for which constant.Compare is false. " +
+			"(R11.5) the comparison guarding a trash block is drawn only from operators for which constant.Compare is false; " +
+			"(R11.6) phi lowering is staged: predecessors assign a staging variable, the phi's block copies it (no swap or lost-copy problem). " +
 			"Does not decide semantic preservation by flattening, splitting, junk and trash insertion or hardening.",
 		perConfig: checkC11,
 	})
@@ -453,4 +454,174 @@ func checkC11(c *Ctx) {
 	} else {
 		c.Undecided("R11.5", "randomAlwaysFalseCond", "", "function not found")
 	}
+
+	// R11.6 ---------------------------------------------------------------
+	// Phis of a block are one parallel assignment that happens on the edge. The converter
+	// appends an assignment to the end of each predecessor; if that assignment targets the
+	// very variable other code reads as the phi's value, (a) a second phi of the same block
+	// that reads the first one gets the new value ("a, b = b, a" in a loop: the swap
+	// problem) and (b) code reached over another edge of the predecessor sees the value
+	// of the next iteration (the lost-copy problem). The assignment in the predecessor
+	// must therefore go to a staging variable of its own, and the phi's variable be
+	// assigned from it in the phi's block.
+	c.Rule("R11.6", "phi values are staged: predecessors assign a variable that nothing else reads, the phi's block copies it", 2)
+	cb = w.Fn("ssa2ast.(*funcConverter).convertBlock")
+	if cb == nil {
+		c.Undecided("R11.6", "convertBlock phi lowering", "", "convertBlock not found")
+		return
+	}
+	gvn := "(*mvdan.cc/garble/internal/ssa2ast.funcConverter).getVarName"
+	// nameOfIdentArg: the string handed to ast.NewIdent for an expression argument
+	identName := func(v ssa.Value) ssa.Value {
+		if mi, ok := v.(*ssa.MakeInterface); ok {
+			v = mi.X
+		}
+		if call, ok := v.(*ssa.Call); ok && calleeName(call) == "go/ast.NewIdent" {
+			return call.Call.Args[0]
+		}
+		return nil
+	}
+	isPhiName := func(v ssa.Value) bool { // exactly getVarName(<the phi>)
+		call, ok := v.(*ssa.Call)
+		return ok && calleeName(call) == gvn
+	}
+	derivedFromPhiName := func(v ssa.Value) bool { // getVarName(...) + something
+		bo, ok := v.(*ssa.BinOp)
+		if !ok || bo.Op != token.ADD {
+			return false
+		}
+		return isPhiName(bo.X) || isPhiName(bo.Y)
+	}
+	var predAssign, headAssign *ssa.Call
+	staged := false
+	for _, b := range cb.Blocks {
+		for _, in := range b.Instrs {
+			st, ok := in.(*ssa.Store)
+			if !ok {
+				continue
+			}
+			fa, ok := st.Addr.(*ssa.FieldAddr)
+			if !ok || fieldName(fa.X.Type(), fa.Field) != "Phi" || namedOf(fa.X.Type()) != "AstBlock" {
+				continue
+			}
+			for _, cv := range w.BackSlice(st.Val, sliceOpt{}).Calls["mvdan.cc/garble/internal/asthelper.AssignStmt"] {
+				call := cv.(*ssa.Call)
+				predAssign = call
+				if n := identName(call.Call.Args[0]); n != nil && derivedFromPhiName(n) {
+					staged = true
+				}
+			}
+		}
+	}
+	if predAssign == nil {
+		c.Undecided("R11.6", "predecessor assignment of a phi", w.Pos(cb.Pos()), "no asthelper.AssignStmt flows into AstBlock.Phi: the phi lowering is not where it used to be")
+		return
+	}
+	c.Check(staged, "R11.6", "predecessor assignment of a phi", w.Pos(predAssign.Pos()), "targets a staging variable named after the phi",
+		"the predecessor assigns the phi's own variable: a loop doing 'a, b = b, a' computes a = b; b = a (both equal), and a value of the phi still needed on another edge of the predecessor is overwritten")
+	for _, cs := range w.CallsTo("mvdan.cc/garble/internal/asthelper.AssignStmt") {
+		if cs.Fn != cb {
+			continue
+		}
+		l, r := identName(cs.Args()[0]), identName(cs.Args()[1])
+		if l != nil && r != nil && isPhiName(l) && derivedFromPhiName(r) {
+			headAssign = cs.Instr.(*ssa.Call)
+		}
+	}
+	c.Check(!staged || headAssign != nil, "R11.6", "copy at the head of the phi's block", w.Pos(cb.Pos()), "phi = staging variable, emitted where the phi instruction stands",
+		"the staging variable is never copied into the phi's variable: every use of the phi reads an unset variable")
+
+	// R11.7 ---------------------------------------------------------------
+	// Block splitting edits the CFG by hand. The converter places the staged value of a
+	// phi at the end of the block recorded in Preds for that edge, so after a block is
+	// split no Preds entry anywhere may still name the head half (junk and trash blocks
+	// sit on edges without updating the Preds of their target, so the stale entries are
+	// not only in the direct successors), and the cut may not fall inside the leading phis.
+	c.Rule("R11.7", "splitting a block repairs Preds function-wide and never cuts inside the leading phis", 2)
+	sp := w.Fn("ctrlflow.applySplitting")
+	if sp == nil {
+		c.Undecided("R11.7", "applySplitting", "", "function not found")
+		return
+	}
+	// (a) the store X.Preds[i] = newBlock: X must come from ranging over the function's Blocks
+	repaired, overAll := false, false
+	var storePos token.Pos
+	for _, b := range sp.Blocks {
+		for _, in := range b.Instrs {
+			st, ok := in.(*ssa.Store)
+			if !ok {
+				continue
+			}
+			ia, ok := st.Addr.(*ssa.IndexAddr)
+			if !ok {
+				continue
+			}
+			// ia.X is the load of <block>.Preds; <block> is an element of the slice being ranged over
+			fieldOfLoad := func(v ssa.Value) (string, ssa.Value) {
+				ld, ok := v.(*ssa.UnOp)
+				if !ok || ld.Op != token.MUL {
+					return "", nil
+				}
+				fa, ok := ld.X.(*ssa.FieldAddr)
+				if !ok {
+					return "", nil
+				}
+				return namedOf(fa.X.Type()) + "." + fieldName(fa.X.Type(), fa.Field), fa.X
+			}
+			f1, blk := fieldOfLoad(ia.X)
+			if f1 != "BasicBlock.Preds" {
+				continue
+			}
+			if _, isAlloc := st.Val.(*ssa.Alloc); !isAlloc {
+				continue // the new block is a fresh allocation
+			}
+			repaired = true
+			storePos = st.Pos()
+			if el, ok := blk.(*ssa.UnOp); ok && el.Op == token.MUL {
+				if eia, ok := el.X.(*ssa.IndexAddr); ok {
+					if f2, _ := fieldOfLoad(eia.X); f2 == "Function.Blocks" {
+						overAll = true
+					}
+				}
+			}
+		}
+	}
+	switch {
+	case !repaired:
+		c.Bad("R11.7", "Preds repair after a split", w.Pos(sp.Pos()), "applySplitting no longer rewrites any Preds entry to the new block: phi values are assigned in the head half, before they are computed")
+	default:
+		c.Check(overAll, "R11.7", "Preds repair after a split", w.Pos(storePos), "every block of the function is visited",
+			"only the direct successors of the split block are repaired: with a junk or trash block on the edge, the phi block's Preds still names the head half and the phi receives the value of the previous iteration")
+	}
+	// (b) the cut index depends on the number of leading phis
+	phiAware := false
+	var counters []*ssa.BasicBlock // headers of the loops that test for *ssa.Phi
+	for _, b := range sp.Blocks {
+		for _, in := range b.Instrs {
+			if ta, ok := in.(*ssa.TypeAssert); ok && strings.HasSuffix(ta.AssertedType.String(), "ssa.Phi") {
+				if h := loopHeaderOf(b); h != nil {
+					counters = append(counters, h)
+				}
+			}
+		}
+	}
+	for _, b := range sp.Blocks {
+		for _, in := range b.Instrs {
+			cut, ok := in.(*ssa.Slice)
+			if !ok || cut.Low == nil {
+				continue
+			}
+			for v := range w.BackSlice(cut.Low, sliceOpt{}).Values {
+				if phi, ok := v.(*ssa.Phi); ok {
+					for _, h := range counters {
+						if phi.Block() == h {
+							phiAware = true
+						}
+					}
+				}
+			}
+		}
+	}
+	c.Check(phiAware, "R11.7", "cut position skips the leading phis", w.Pos(sp.Pos()), "applySplitting counts the *ssa.Phi prefix of the block",
+		"the cut may fall between two phis of a loop header: the second phi lands in a block with one predecessor and the converter panics or assigns it from the wrong edge")
 }
